@@ -13,12 +13,14 @@ package collector
 //@ pure iesNN(L []*entities.InfoElement) bool = forall k in [0, len(L)): L[k] != nil
 //@ pure storeOK(cp *CollectingProcess) bool = forall d in [0, 4294967296): forall i in [0, 65536): tplHas(cp, d, i) ==> tplOf(cp, d, i) != nil && iesNN(tplOf(cp, d, i).ies)
 
-//@ func getFieldLength(dataBuffer) (r)
+//@ func getFieldLength(dataBuffer) (r, err)
 //@   requires nn:   dataBuffer != nil
 //@   ensures  rng:  0 <= r && r <= 65535
-//@   ensures  short: old(len(dataBuffer.buf)) >= 1 && old(dataBuffer.buf[0]) < 255 ==> r == old(dataBuffer.buf[0]) && dataBuffer.buf == old(dataBuffer.buf)[1 : old(len(dataBuffer.buf))]
-//@   ensures  long:  old(len(dataBuffer.buf)) >= 3 && old(dataBuffer.buf[0]) == 255 ==> r == old(dataBuffer.buf[1]) * 256 + old(dataBuffer.buf[2]) && dataBuffer.buf == old(dataBuffer.buf)[3 : old(len(dataBuffer.buf))]
-//@   ensures  shrink: len(dataBuffer.buf) <= old(len(dataBuffer.buf))
+//@   ensures  short: old(len(dataBuffer.buf)) >= 1 && old(dataBuffer.buf[0]) < 255 ==> err == nil && r == old(dataBuffer.buf[0]) && dataBuffer.buf == old(dataBuffer.buf)[1 : old(len(dataBuffer.buf))]
+//@   ensures  long:  old(len(dataBuffer.buf)) >= 3 && old(dataBuffer.buf[0]) == 255 ==> err == nil && r == old(dataBuffer.buf[1]) * 256 + old(dataBuffer.buf[2]) && dataBuffer.buf == old(dataBuffer.buf)[3 : old(len(dataBuffer.buf))]
+//@   ensures  cut:   old(len(dataBuffer.buf)) == 0 || (old(dataBuffer.buf[0]) == 255 && old(len(dataBuffer.buf)) < 3) ==> err != nil
+//@   ensures  shrink: len(dataBuffer.buf) <= old(len(dataBuffer.buf)) && (err == nil ==> len(dataBuffer.buf) < old(len(dataBuffer.buf)))
+//@   ensures  samearr: arr(dataBuffer.buf) == old(arr(dataBuffer.buf))
 //@   modifies dataBuffer.buf
 
 //@ func (cp *CollectingProcess) getTemplateIEs(obsDomainID, templateID) (ies, err)
@@ -38,19 +40,181 @@ package collector
 //@ // shipped registry by enumeration), unknown ones are octet arrays of the wire's length
 //@ pure ieOK(e *entities.InfoElement) bool = e != nil && (e.DataType != OctetArray ==> e.Len == fixedWidth(e.DataType))
 //@ pure iesOK(L []*entities.InfoElement) bool = forall k in [0, len(L)): ieOK(L[k])
+//@ pure theDSet(s entities.Set) *set = s.(*set)
 //@ pure storeWF(cp *CollectingProcess) bool = forall d in [0, 4294967296): forall i in [0, 65536): tplHas(cp, d, i) ==> tplOf(cp, d, i) != nil && iesOK(tplOf(cp, d, i).ies) && len(tplOf(cp, d, i).ies) <= 65535
 
 //@ func (cp *CollectingProcess) decodeDataSet(dataBuffer, obsDomainID, templateID) (set, err)
 //@   requires cp:    cp != nil && !cp.mutex.held && !cp.mutex.rheld && dataBuffer != nil && cp.numExtraElements >= 0
 //@   requires store: storeWF(cp)
+//@   requires bufnn: !isnil(dataBuffer.buf)
 //@   ensures  lookup: !old(tplHas(cp, obsDomainID, templateID)) ==> err != nil
 //@   ensures  lock:  !cp.mutex.held && !cp.mutex.rheld
+//@   ensures  all:   err == nil ==> len(dataBuffer.buf) == 0
+//@   ensures  res:   err == nil ==> is(set, *set) && theDSet(set) != nil && fresh(set) && theDSet(set).isDecoding && theDSet(set).setType == Data && recsSafe(theDSet(set))
+//@   ensures  errnil: err != nil ==> isnil(set)
 //@   modifies dataBuffer.buf, cp.mutex.rheld
-//@   loop 1 invariant st:   dataSet != nil && fresh(dataSet) && fresh(dataSet.records) && setInv(dataSet) && recsSafe(dataSet) && dataSet.isDecoding && dataSet.setType == Data
-//@                    && dataBuffer != nil && !cp.mutex.held && !cp.mutex.rheld && iesOK(template) && len(template) <= 65535
+//@   replay packet
+//@   callpre DecodeAndCreateInfoElementWithValue exact: len(value) == length && (length > 0 ==> !isnil(value))
+//@   loop 1 invariant ptr:  dataSet != nil && fresh(dataSet) && fresh(dataSet.records) && dataBuffer != nil && arr(dataBuffer.buf) == old(arr(dataBuffer.buf))
+//@   loop 1 invariant mode: dataSet.isDecoding && dataSet.setType == Data && !cp.mutex.held && !cp.mutex.rheld
+//@   loop 1 invariant sinv: setInv(dataSet)
+//@   loop 1 invariant safe: recsSafe(dataSet)
+//@   loop 1 invariant tpl:  iesOK(template) && len(template) <= 65535
 //@   loop 1 decreases len(dataBuffer.buf)
 //@   loop 2 invariant cnt:  0 <= $i && $i <= len(template) && len(elements) <= $i && fresh(elements)
 //@   loop 2 invariant wf:   elemsWF(elements, len(elements))
-//@   loop 2 invariant st:   dataSet != nil && fresh(dataSet) && fresh(dataSet.records) && setInv(dataSet) && recsSafe(dataSet) && dataSet.isDecoding && dataSet.setType == Data
-//@                    && dataBuffer != nil && !cp.mutex.held && !cp.mutex.rheld && iesOK(template)
+//@   loop 2 invariant keep: cp.decodingMode != "LenientDropUnknown" ==> len(elements) == $i && (forall j in [0, $i): ie(elements[j]) == template[j])
+//@   loop 2 invariant drop: cp.decodingMode == "LenientDropUnknown" ==> len(elements) == sum(j in [0, $i): b2i(template[j].Name != ""))
+//@                    && (forall k in [0, len(elements)): ie(elements[k]).Name != "")
+//@   loop 2 invariant disj: forall i in [0, len(dataSet.records)): arr(dataSet.records[i].(*dataRecord).orderedElementList) != arr(elements)
+//@   loop 2 invariant prog: len(dataBuffer.buf) <= remaining && 0 < remaining
+//@   loop 2 invariant ptr:  dataSet != nil && fresh(dataSet) && fresh(dataSet.records) && dataBuffer != nil && arr(dataBuffer.buf) == old(arr(dataBuffer.buf))
+//@   loop 2 invariant mode: dataSet.isDecoding && dataSet.setType == Data && !cp.mutex.held && !cp.mutex.rheld
+//@   loop 2 invariant sinv: setInv(dataSet)
+//@   loop 2 invariant safe: recsSafe(dataSet)
+//@   loop 2 invariant tpl:  iesOK(template) && len(template) <= 65535
 //@   loop 2 decreases len(template) - $i
+
+// ---------------------------------------------------------------------------
+// decodeTemplateSet and its closures (C03 template exactness, C04 store updates, C17 unknown elements)
+// ---------------------------------------------------------------------------
+
+//@ // the field specifier at the front of buffer b (RFC 7011 §3.2)
+//@ pure fsEnt(b []byte) bool = b[0] >= 128
+//@ pure fsId(b []byte) int = (b[0] % 128) * 256 + b[1]
+//@ pure fsLen(b []byte) int = b[2] * 256 + b[3]
+//@ pure fsEntNo(b []byte) int = be32(b, 4)
+//@ pure fsSize(b []byte) int = fsEnt(b) ? 8 : 4
+//@ pure known(id int, ent int) bool = has(registry.globalRegistryByID, ent) && has(registry.globalRegistryByID[ent], id)
+
+//@ func (cp *CollectingProcess) decodeTemplateSet$1() (r, err)
+//@   requires fv:    *cp != nil && *templateBuffer != nil && !isnil((*templateBuffer).buf)
+//@   requires reg:   regInv()
+//@   ensures  short: old(len((*templateBuffer).buf)) < 4 || (old(fsEnt((*templateBuffer).buf)) && old(len((*templateBuffer).buf)) < 8) ==> err != nil
+//@   ensures  unknownStrict: old(len((*templateBuffer).buf)) >= old(fsSize((*templateBuffer).buf))
+//@                    && !old(known(fsId((*templateBuffer).buf), fsEnt((*templateBuffer).buf) ? fsEntNo((*templateBuffer).buf) : 0))
+//@                    && (*cp).decodingMode == "Strict" ==> err != nil
+//@   ensures  ok:    err == nil ==> !isnil(r) && fresh(r) && ieOK(ie(r)) && wfElem(r) && elemEmpty(r)
+//@                    && old(len((*templateBuffer).buf)) >= old(fsSize((*templateBuffer).buf))
+//@                    && (*templateBuffer).buf == old((*templateBuffer).buf)[old(fsSize((*templateBuffer).buf)) : old(len((*templateBuffer).buf))]
+//@                    && ie(r).ElementId == old(fsId((*templateBuffer).buf))
+//@                    && ie(r).EnterpriseId == old(fsEnt((*templateBuffer).buf) ? fsEntNo((*templateBuffer).buf) : 0)
+//@   ensures  knownel: err == nil && old(known(fsId((*templateBuffer).buf), fsEnt((*templateBuffer).buf) ? fsEntNo((*templateBuffer).buf) : 0)) ==>
+//@                    ie(r) == old(registry.globalRegistryByID[fsEnt((*templateBuffer).buf) ? fsEntNo((*templateBuffer).buf) : 0][fsId((*templateBuffer).buf)])
+//@   ensures  unknownel: err == nil && !old(known(fsId((*templateBuffer).buf), fsEnt((*templateBuffer).buf) ? fsEntNo((*templateBuffer).buf) : 0)) ==>
+//@                    (*cp).decodingMode != "Strict" && fresh(ie(r)) && ie(r).Name == "" && ie(r).DataType == OctetArray && ie(r).Len == old(fsLen((*templateBuffer).buf))
+//@   ensures  samearr: arr((*templateBuffer).buf) == old(arr((*templateBuffer).buf)) && len((*templateBuffer).buf) <= old(len((*templateBuffer).buf))
+//@   modifies (*templateBuffer).buf
+
+//@ // tplElemOK: an element produced by decodeField
+//@ pure tplElemOK(e entities.InfoElementWithValue) bool = !isnil(e) && ieOK(ie(e)) && wfElem(e) && elemEmpty(e)
+
+//@ func (cp *CollectingProcess) decodeTemplateSet$2() (r, err)
+//@   inlined
+//@   loop 1 invariant cnt: 0 <= $i && $i < *fieldCount && len(elementsWithValue) == *fieldCount && fresh(elementsWithValue)
+//@   loop 1 invariant els: forall j in [0, $i): tplElemOK(elementsWithValue[j])
+//@   loop 1 invariant buf: !isnil(templateBuffer.buf) && arr(templateBuffer.buf) == old(arr(templateBuffer.buf))
+//@   loop 1 onexit els: forall j in [0, $i): tplElemOK(elementsWithValue[j])
+//@   loop 1 onexit all: forall j in [0, len(elementsWithValue)): tplElemOK(elementsWithValue[j])
+//@   loop 1 decreases *fieldCount - $i
+
+//@ // storeShape: representation invariant of the nested template maps: inner maps and stored templates are non-nil
+//@ pure storeShape(cp *CollectingProcess) bool = cp.templatesMap != nil
+//@     && (forall d in [0, 4294967296): has(cp.templatesMap, d) ==> cp.templatesMap[d] != nil)
+//@     && (forall d in [0, 4294967296): forall i in [0, 65536): tplHas(cp, d, i) ==> tplOf(cp, d, i) != nil)
+//@     && (forall d1 in [0, 4294967296): forall d2 in [0, 4294967296): d1 != d2 && has(cp.templatesMap, d1) && has(cp.templatesMap, d2) ==> cp.templatesMap[d1] != cp.templatesMap[d2])
+
+//@ func (cp *CollectingProcess) addTemplate(obsDomainID, templateID, elementsWithValue) ()
+//@   requires cp:   cp != nil && !cp.mutex.held && !cp.mutex.rheld && storeShape(cp) && !isnil(cp.clock)
+//@   requires el:   elemsNN(elementsWithValue, len(elementsWithValue))
+//@   ensures  shape: storeShape(cp)
+//@   ensures  wf:   old(storeWF(cp)) && len(elementsWithValue) <= 65535 && (forall j in [0, len(elementsWithValue)): tplElemOK(elementsWithValue[j])) ==> storeWF(cp)
+//@   ensures  has:  tplHas(cp, obsDomainID, templateID) && tplOf(cp, obsDomainID, templateID) != nil
+//@   ensures  ies:  len(tplOf(cp, obsDomainID, templateID).ies) == len(elementsWithValue)
+//@                    && (forall j in [0, len(elementsWithValue)): tplOf(cp, obsDomainID, templateID).ies[j] == ie(elementsWithValue[j]))
+//@   ensures  others: forall d2 in [0, 4294967296): forall i2 in [0, 65536): (d2 != obsDomainID || i2 != templateID) ==>
+//@                    tplHas(cp, d2, i2) == old(tplHas(cp, d2, i2)) && (tplHas(cp, d2, i2) ==> tplOf(cp, d2, i2) == old(tplOf(cp, d2, i2)))
+//@   ensures  lock: !cp.mutex.held
+//@   modifies cp.mutex.held, cp.templatesMap[*], cp.templatesMap[obsDomainID][*],
+//@            cp.templatesMap[obsDomainID][templateID].ies, cp.templatesMap[obsDomainID][templateID].expiryTime, cp.templatesMap[obsDomainID][templateID].expiryTimer
+//@   loop 1 invariant cnt: 0 <= $i && $i <= len(elementsWithValue) && len(elements) == $i && cp.mutex.held && fresh(elements)
+//@   loop 1 invariant els: forall j in [0, $i): elements[j] == ie(elementsWithValue[j])
+//@   loop 1 invariant map: has(cp.templatesMap, obsDomainID) && cp.templatesMap[obsDomainID] != nil
+//@   loop 1 decreases len(elementsWithValue) - $i
+
+//@ func (cp *CollectingProcess) deleteTemplateWithConds(obsDomainID, templateID, condFns) (r)
+//@   requires cp:   cp != nil && !cp.mutex.held && !cp.mutex.rheld && storeShape(cp)
+//@   requires fns:  forall j in [0, len(condFns)): condFns[j] != nil
+//@   ensures  del:  r ==> old(tplHas(cp, obsDomainID, templateID)) && !tplHas(cp, obsDomainID, templateID)
+//@   ensures  keep: !r ==> tplHas(cp, obsDomainID, templateID) == old(tplHas(cp, obsDomainID, templateID)) && tplOf(cp, obsDomainID, templateID) == old(tplOf(cp, obsDomainID, templateID))
+//@   ensures  uncond: len(condFns) == 0 ==> (r <==> old(tplHas(cp, obsDomainID, templateID)))
+//@   ensures  others: forall d2 in [0, 4294967296): forall i2 in [0, 65536): (d2 != obsDomainID || i2 != templateID) ==>
+//@                    tplHas(cp, d2, i2) == old(tplHas(cp, d2, i2)) && (tplHas(cp, d2, i2) ==> tplOf(cp, d2, i2) == old(tplOf(cp, d2, i2)))
+//@   ensures  shape: storeShape(cp)
+//@   ensures  wf:   old(storeWF(cp)) ==> storeWF(cp)
+//@   ensures  lock: !cp.mutex.held
+//@   modifies cp.mutex.held, cp.templatesMap[*], cp.templatesMap[obsDomainID][*]
+//@   loop 1 invariant cnt: 0 <= $i && $i <= len(condFns) && cp.mutex.held
+//@   loop 1 decreases len(condFns) - $i
+
+//@ func (cp *CollectingProcess) deleteTemplate(obsDomainID, templateID) (r)
+//@   requires cp:   cp != nil && !cp.mutex.held && !cp.mutex.rheld && storeShape(cp)
+//@   ensures  del:  (r <==> old(tplHas(cp, obsDomainID, templateID))) && !tplHas(cp, obsDomainID, templateID)
+//@   ensures  others: forall d2 in [0, 4294967296): forall i2 in [0, 65536): (d2 != obsDomainID || i2 != templateID) ==>
+//@                    tplHas(cp, d2, i2) == old(tplHas(cp, d2, i2)) && (tplHas(cp, d2, i2) ==> tplOf(cp, d2, i2) == old(tplOf(cp, d2, i2)))
+//@   ensures  shape: storeShape(cp)
+//@   ensures  wf:   old(storeWF(cp)) ==> storeWF(cp)
+//@   ensures  lock: !cp.mutex.held
+//@   modifies cp.mutex.held, cp.templatesMap[*], cp.templatesMap[obsDomainID][*]
+
+//@ func (cp *CollectingProcess) decodeTemplateSet(templateBuffer, obsDomainID) (set, err)
+//@   requires cp:    cp != nil && !cp.mutex.held && !cp.mutex.rheld && storeShape(cp) && !isnil(cp.clock)
+//@   requires buf:   templateBuffer != nil && !isnil(templateBuffer.buf)
+//@   requires reg:   regInv()
+//@   ensures  wf:    old(storeWF(cp)) ==> storeWF(cp)
+//@   ensures  short: old(len(templateBuffer.buf)) < 4 ==> err != nil
+//@   ensures  early: old(len(templateBuffer.buf)) < 4 ==> (forall d2 in [0, 4294967296): forall i2 in [0, 65536):
+//@                    tplHas(cp, d2, i2) == old(tplHas(cp, d2, i2)) && (tplHas(cp, d2, i2) ==> tplOf(cp, d2, i2) == old(tplOf(cp, d2, i2))))
+//@   ensures  bad:   err != nil && old(len(templateBuffer.buf)) >= 4 ==> !tplHas(cp, obsDomainID, old(be16(templateBuffer.buf, 0)))
+//@   ensures  good:  err == nil ==> old(len(templateBuffer.buf)) >= 4 && tplHas(cp, obsDomainID, old(be16(templateBuffer.buf, 0)))
+//@                    && len(tplOf(cp, obsDomainID, old(be16(templateBuffer.buf, 0))).ies) == old(be16(templateBuffer.buf, 2))
+//@                    && iesOK(tplOf(cp, obsDomainID, old(be16(templateBuffer.buf, 0))).ies)
+//@   ensures  others: old(len(templateBuffer.buf)) >= 4 ==> (forall d2 in [0, 4294967296): forall i2 in [0, 65536): (d2 != obsDomainID || i2 != old(be16(templateBuffer.buf, 0))) ==>
+//@                    tplHas(cp, d2, i2) == old(tplHas(cp, d2, i2)) && (tplHas(cp, d2, i2) ==> tplOf(cp, d2, i2) == old(tplOf(cp, d2, i2))))
+//@   ensures  shape: storeShape(cp)
+//@   ensures  res:   err == nil ==> is(set, *set) && theDSet(set) != nil && fresh(set) && theDSet(set).isDecoding && theDSet(set).setType == Template
+//@                    && len(theDSet(set).records) == 1 && is(theDSet(set).records[0], *templateRecord)
+//@   ensures  errnil: err != nil ==> isnil(set)
+//@   ensures  lock:  !cp.mutex.held && !cp.mutex.rheld
+//@   modifies templateBuffer.buf, cp.mutex.held, cp.templatesMap[*], cp.templatesMap[obsDomainID][*],
+//@            cp.templatesMap[obsDomainID][be16(templateBuffer.buf, 0)].ies, cp.templatesMap[obsDomainID][be16(templateBuffer.buf, 0)].expiryTime, cp.templatesMap[obsDomainID][be16(templateBuffer.buf, 0)].expiryTimer
+
+// ---------------------------------------------------------------------------
+// decodePacket (C03 header/dispatch, C04 right template, C11 delivery)
+// ---------------------------------------------------------------------------
+
+//@ pure viewSame(cp *CollectingProcess) bool = forall d2 in [0, 4294967296): forall i2 in [0, 65536):
+//@     tplHas(cp, d2, i2) == old(tplHas(cp, d2, i2)) && (tplHas(cp, d2, i2) ==> tplOf(cp, d2, i2) == old(tplOf(cp, d2, i2)))
+
+//@ func (cp *CollectingProcess) decodePacket(packetBuffer, exportAddress) (msg, err)
+//@   requires cp:    cp != nil && !cp.mutex.held && !cp.mutex.rheld && storeShape(cp) && storeWF(cp) && !isnil(cp.clock) && cp.numExtraElements >= 0 && cp.messageChan != nil
+//@   requires buf:   packetBuffer != nil && !isnil(packetBuffer.buf)
+//@   requires addr:  lastIndex(exportAddress, ":") >= 0
+//@   requires reg:   regInv()
+//@   ensures  short: old(len(packetBuffer.buf)) < 20 ==> err != nil
+//@   ensures  version: old(len(packetBuffer.buf)) >= 20 && old(be16(packetBuffer.buf, 0)) != 10 ==> err != nil
+//@   ensures  hdr:   err == nil ==> msg != nil && fresh(msg) && msg.version == 10 && msg.length == old(be16(packetBuffer.buf, 2))
+//@                    && msg.exportTime == old(be32(packetBuffer.buf, 4)) && msg.seqNumber == old(be32(packetBuffer.buf, 8)) && msg.obsDomainID == old(be32(packetBuffer.buf, 12))
+//@                    && !isnil(msg.set)
+//@   ensures  delivered: err == nil ==> chanCount(cp.messageChan) == old(chanCount(cp.messageChan)) + 1 && chanAt(cp.messageChan, old(chanCount(cp.messageChan))) == msg
+//@   ensures  refused: err != nil ==> chanCount(cp.messageChan) == old(chanCount(cp.messageChan)) && msg == nil
+//@   ensures  notpl: old(len(packetBuffer.buf)) >= 20 && old(be16(packetBuffer.buf, 16)) != 2
+//@                    && !old(tplHas(cp, be32(packetBuffer.buf, 12), be16(packetBuffer.buf, 16))) ==> err != nil
+//@   ensures  dataview: old(len(packetBuffer.buf)) < 20 || old(be16(packetBuffer.buf, 0)) != 10 || old(be16(packetBuffer.buf, 16)) != 2 ==> viewSame(cp)
+//@   ensures  store: storeShape(cp) && storeWF(cp)
+//@   ensures  lock:  !cp.mutex.held && !cp.mutex.rheld
+//@   modifies packetBuffer.buf, cp.mutex.held, cp.mutex.rheld, cp.numOfRecordsReceived, sent(cp.messageChan), cp.templatesMap[*],
+//@            cp.templatesMap[be32(packetBuffer.buf, 12)][*],
+//@            cp.templatesMap[be32(packetBuffer.buf, 12)][be16(packetBuffer.buf, 20)].ies,
+//@            cp.templatesMap[be32(packetBuffer.buf, 12)][be16(packetBuffer.buf, 20)].expiryTime,
+//@            cp.templatesMap[be32(packetBuffer.buf, 12)][be16(packetBuffer.buf, 20)].expiryTimer
